@@ -76,6 +76,7 @@ func (e *Env) iterateClosure(fr *Frame, it *Item, recv *Iface, args []Value, var
 		}
 	}
 	counterAtEntry := e.counter
+	snap := e.snapshot()
 	discover := func(start *State) (map[string]bool, map[string][]string) {
 		s := start.clone()
 		e.dry++
@@ -127,6 +128,7 @@ func (e *Env) iterateClosure(fr *Frame, it *Item, recv *Iface, args []Value, var
 		}
 	}
 	// havoc (partial where the closure only writes a few call-invariant references)
+	e.rollback(snap)
 	hv := st.clone()
 	partialRefs := map[string][]string{}
 	for _, n := range sortedKeys(modified) {
